@@ -533,6 +533,19 @@ def run_obligation(prop, ob_dict, known):
         viol_count = {}
         known_count = {}
         deadline = t0 + ob.timeout_s
+        # hard wall clock: the deadline test in on_path is only reached between paths; a path that itself runs away
+        # (term blow-up on a changed tree) is interrupted here.  Repeats so that a swallowed exception fires again.
+        import signal as _sig
+
+        def _alarm(signum, frame):
+            raise E.Budget('obligation wall budget %ds exhausted (alarm)' % ob.timeout_s)
+        try:
+            _sig.signal(_sig.SIGALRM, _alarm)
+            _sig.setitimer(_sig.ITIMER_REAL, ob.timeout_s + 20, 10)
+        except (ValueError, OSError):
+            pass
+        flag = os.environ.get('VF_SETTLED_FLAG')
+        nonlocal_deadline = [deadline]
 
         def body():
             ctx = SymCtx(eng, lib)
@@ -553,6 +566,14 @@ def run_obligation(prop, ob_dict, known):
                     os._exit(0)          # the check that started this worker is gone (killed / timed out)
             if time.time() > deadline:
                 raise E.Budget('obligation wall budget %ds exhausted' % ob.timeout_s)
+            if flag and not eng.fast_fail and os.path.exists(flag):
+                # another obligation of this run already has a confirmed violation: the verdict (exit 1) is settled, so
+                # the remaining obligations only get short budgets
+                eng.timeout_ms = min(eng.timeout_ms, 2000)
+                eng.fast_fail = True
+                nonlocal_deadline[0] = min(nonlocal_deadline[0], time.time() + 60)
+            if time.time() > nonlocal_deadline[0]:
+                raise E.Budget('stopped: a violation is already confirmed in this run')
             ctx = holder['ctx']
             if is_exc:
                 if isinstance(r, PreconditionFailed):
